@@ -164,6 +164,20 @@ WriteVec(S, o, i, x, s) ==
                      !.fpv[o] = IF "VecFpNotInvalidated" \in Devs THEN @ ELSE NoMemo,
                      !.fpt = fpt1], "Ok")
 
+(* t[r] = row  /  t[r, :] = row : one write per column, ALL OR NOTHING - if any column cannot be written
+   (its storage is shared) the call is refused and no column changes (C01, C08)                      *)
+WriteRow(S, t, r, xs, sids) ==
+  LET cs == S.cols[t]  n == Len(cs)
+      pos(o) == CHOOSE i \in 1..n : cs[i] = o IN
+  IF \E i \in 1..n : ~Writable(S, cs[i]) THEN Same(S, "Refused")
+  ELSE Out([S EXCEPT
+        !.store = [o \in Obj |-> IF o \in RangeOf(cs) THEN sids[pos(o)] ELSE S.store[o]],
+        !.heap = [q \in Sid |-> IF \E i \in 1..n : sids[i] = q
+                                  THEN [Contents(S, cs[CHOOSE i \in 1..n : sids[i] = q]) EXCEPT ![r] = xs[CHOOSE i \in 1..n : sids[i] = q]]
+                                  ELSE S.heap[q]],
+        !.reg = [q \in Sid |-> (S.reg[q] \ RangeOf(cs)) \cup {cs[i] : i \in {j \in 1..n : sids[j] = q}}],
+        !.fpv = [o \in Obj |-> IF o \in RangeOf(cs) THEN NoMemo ELSE S.fpv[o]]], "Ok")
+
 (* v.fingerprint(): returns a function of the current contents; memoises it *)
 ReadFpV(S, o) == Same([S EXCEPT !.fpv[o] = IF @ = NoMemo THEN <<Contents(S, o)>> ELSE @, !.everfp = @ \cup {o}],
                       IF S.fpv[o] = NoMemo THEN "Ok" ELSE "OkCached")
